@@ -13,7 +13,7 @@ def run(run):
                 'remove node; non-trivial = at least two graph actions; distinct by action sequence')
     # unbounded in history length: IndInv of the typed extract AtkRel is an inductive invariant (Apalache)
     run.apalache('AtkRel', [('Init', 'IndInv', 0), ('IndInit', 'IndInv', 1)])
-    gsm.mc_slice(run, 'C11', 7, must=('Compromise', 'Undo', 'RemoveGAttacker', 'AttachAttackers', 'AddGAttacker'))
+    gsm.mc_slice(run, 'C11M', 7, must=('Compromise', 'Undo', 'RemoveGAttacker', 'AttachAttackers', 'AddGAttacker'))
     gsm.bfs_slice(run, 'C11', 5 if quick else 6, keep=KEEP)
     gsm.simulate(run, 'C11', 12, 3000 if quick else 50000, keep=KEEP, free=False, timeout=300 if quick else 1800)
     gsm.simulate(run, 'C11', 14, 1500 if quick else 30000, keep=KEEP, timeout=300 if quick else 1800)
@@ -22,4 +22,4 @@ def run(run):
         from checks import c05
         run.want_graph_traces = True
         c05.repo_suite_traces(run)
-        gsm.mc_slice(run, 'C11', 8, must=('Compromise', 'Undo', 'RemoveGAttacker', 'AttachAttackers', 'AddGAttacker'))      # larger design check last
+        gsm.mc_slice(run, 'C11M', 8, must=('Compromise', 'Undo', 'RemoveGAttacker', 'AttachAttackers', 'AddGAttacker'))      # larger design check last
